@@ -5,8 +5,8 @@
 package chain
 
 import (
-	"github.com/oasisprotocol/oasis-core/go/common/version"
 	"fmt"
+	"github.com/oasisprotocol/oasis-core/go/common/version"
 	"net"
 	"time"
 
@@ -86,35 +86,36 @@ func maxInt(a, b int) int {
 
 // GenesisOptions selects a genesis variant.
 type GenesisOptions struct {
-	EpochInterval      int64  // blocks per epoch (insecure beacon)
-	MaxValidators      int    // scheduler limit
-	MinTransactBalance uint64 // staking parameter
-	LastBlockFees      uint64 // fees carried into the first block
-	CommonPool         uint64
-	BypassStake        bool
-	Escrow             []uint64 // self-escrow per entity (default 1000, 2000, 3000)
-	MaxBlockGas        uint64
-	NoRewards          bool // no staking rewards (stake changes only through transactions and slashing)
-	MaxPerEntity       int  // scheduler MaxValidatorsPerEntity (default 1)
-	ExtraNodes         bool // entity 1 also owns node 3 (a second validator node) at genesis
-	NodeExpiration     uint64 // expiration epoch of genesis nodes (default 4)
-	NodeExpirations    []uint64 // per-node override of the expiration epoch
-	ZeroThresholds     bool     // all stake thresholds zero (tiny stakes can be elected)
-	MinGasPrice        uint64   // consensus parameter
-	TxByteGas          uint64   // gas cost per transaction byte
-	Runtime            bool     // register a compute runtime owned by entity 0; all genesis nodes are also compute workers for it
-	RtGroupSize        uint16   // executor committee size (default 2)
-	RtBackupSize       uint16   // backup workers (default 0)
-	RtMaxInMessages    uint32   // incoming message queue capacity (default 1)
-	RtMaxNodesPerEnt   uint16   // MaxNodes scheduling constraint per entity (0 = none)
-	RtMinPool          uint16   // MinPoolSize scheduling constraint (default = group size)
-	DebondingInterval  uint64   // staking debonding interval in epochs (default 1)
-	RtFunded           bool     // account 1 holds a 700-unit delegation to the runtime's own account (needed for runtime governance)
-	SlashAmount        uint64   // amount slashed for consensus equivocation (default 300); a huge value wipes an escrow account
-	RtRoundTimeout     int64    // executor round timeout in blocks (default 5)
-	RtTwoVersions      bool     // the runtime has a second deployment (version 1.0.0) valid from epoch 3; node 1 is registered for the old version only
-	Prefix             []string // letter names executed (one block each) before the explored history starts: part of the initial state (interpreted by the engines, not by Genesis)
-	Vault              bool     // a vault (creator account 0, id 1) with balance 100 exists at genesis: admin {a0,a1} threshold 1, suspend {a1}, withdraw policy 60 per 10 blocks for account 1
+	EpochInterval       int64  // blocks per epoch (insecure beacon)
+	MaxValidators       int    // scheduler limit
+	MinTransactBalance  uint64 // staking parameter
+	LastBlockFees       uint64 // fees carried into the first block
+	CommonPool          uint64
+	BypassStake         bool
+	Escrow              []uint64 // self-escrow per entity (default 1000, 2000, 3000)
+	MaxBlockGas         uint64
+	NoRewards           bool     // no staking rewards (stake changes only through transactions and slashing)
+	MaxPerEntity        int      // scheduler MaxValidatorsPerEntity (default 1)
+	ExtraNodes          bool     // entity 1 also owns node 3 (a second validator node) at genesis
+	NodeExpiration      uint64   // expiration epoch of genesis nodes (default 4)
+	NodeExpirations     []uint64 // per-node override of the expiration epoch
+	ZeroThresholds      bool     // all stake thresholds zero (tiny stakes can be elected)
+	MinGasPrice         uint64   // consensus parameter
+	TxByteGas           uint64   // gas cost per transaction byte
+	Runtime             bool     // register a compute runtime owned by entity 0; all genesis nodes are also compute workers for it
+	RtGroupSize         uint16   // executor committee size (default 2)
+	RtBackupSize        uint16   // backup workers (default 0)
+	RtMaxInMessages     uint32   // incoming message queue capacity (default 1)
+	RtMaxNodesPerEnt    uint16   // MaxNodes scheduling constraint per entity (0 = none)
+	RtMinPool           uint16   // MinPoolSize scheduling constraint (default = group size)
+	DebondingInterval   uint64   // staking debonding interval in epochs (default 1)
+	RtFunded            bool     // account 1 holds a 700-unit delegation to the runtime's own account (needed for runtime governance)
+	SlashAmount         uint64   // amount slashed for consensus equivocation (default 300); a huge value wipes an escrow account
+	RtSlashEquivocation uint64   // runtime slashing amount for executor / proposal equivocation (default: the runtime does not slash)
+	RtRoundTimeout      int64    // executor round timeout in blocks (default 5)
+	RtTwoVersions       bool     // the runtime has a second deployment (version 1.0.0) valid from epoch 3; node 1 is registered for the old version only
+	Prefix              []string // letter names executed (one block each) before the explored history starts: part of the initial state (interpreted by the engines, not by Genesis)
+	Vault               bool     // a vault (creator account 0, id 1) with balance 100 exists at genesis: admin {a0,a1} threshold 1, suspend {a1}, withdraw policy 60 per 10 blocks for account 1
 
 }
 
@@ -171,11 +172,11 @@ func (k *Keys) RuntimeDescriptor(ent int, o GenesisOptions) *registry.Runtime {
 		EntityID:  k.Entities[ent].Public(),
 		Kind:      registry.KindCompute,
 		Executor: registry.ExecutorParameters{
-			GroupSize:         gs,
-			GroupBackupSize:   o.RtBackupSize,
-			AllowedStragglers: 0,
-			RoundTimeout:      rtRoundTimeout(o),
-			MaxMessages:       8,
+			GroupSize:                  gs,
+			GroupBackupSize:            o.RtBackupSize,
+			AllowedStragglers:          0,
+			RoundTimeout:               rtRoundTimeout(o),
+			MaxMessages:                8,
 			MinLiveRoundsForEvaluation: 1,
 			MinLiveRoundsPercent:       50,
 			MaxLivenessFailures:        1,
@@ -199,6 +200,9 @@ func (k *Keys) RuntimeDescriptor(ent int, o GenesisOptions) *registry.Runtime {
 	}
 	if o.RtTwoVersions {
 		rt.Deployments = append(rt.Deployments, &registry.VersionInfo{Version: version.Version{Major: 1}, ValidFrom: 3})
+	}
+	if o.RtSlashEquivocation > 0 {
+		rt.Staking.Slashing = map[staking.SlashReason]staking.Slash{staking.SlashRuntimeEquivocation: {Amount: q(o.RtSlashEquivocation)}}
 	}
 	rt.Genesis.StateRoot.Empty()
 	return rt
@@ -331,7 +335,7 @@ func Genesis(k *Keys, o GenesisOptions) (*genesis.Document, error) {
 				staking.KindRuntimeKeyManager: q(600),
 				staking.KindKeyManagerChurp:   q(700),
 			},
-			RewardSchedule: []staking.RewardStep{{Until: 1000, Scale: q(5000000)}},
+			RewardSchedule:                    []staking.RewardStep{{Until: 1000, Scale: q(5000000)}},
 			SigningRewardThresholdNumerator:   1,
 			SigningRewardThresholdDenominator: 2,
 			CommissionScheduleRules: staking.CommissionScheduleRules{
@@ -341,7 +345,7 @@ func Genesis(k *Keys, o GenesisOptions) (*genesis.Document, error) {
 				MaxBoundSteps:      4,
 			},
 			Slashing: map[staking.SlashReason]staking.Slash{
-				staking.SlashConsensusEquivocation: {Amount: q(slashAmount(o)), FreezeInterval: 1},
+				staking.SlashConsensusEquivocation:      {Amount: q(slashAmount(o)), FreezeInterval: 1},
 				staking.SlashConsensusLightClientAttack: {Amount: q(250), FreezeInterval: 1},
 			},
 			GasCosts: transaction.Costs{
